@@ -577,11 +577,132 @@ def sized_other(rng, name, target):
     return by, code, rec
 
 
+def sized_lis_padded(rng, target):
+    """padded LIS (see gen_lis_padded) with about `target` bytes of records after the header"""
+    fill = rng.choice([b' ', b'\x00'])
+    lrs = [lis_reel_tape_head(rng, 132, fill), lis_reel_tape_head(rng, 130, fill), lis_file_head(rng, fill)][rng.randrange(3):]
+    n = sum(len(x) for x in lrs)
+    while n < target:
+        k = min(rng.choice([1, 7, 100, 1000, 5000, 20000]), max(target - n - 2, 1))
+        lrs.append(bytes([rng.choice([232, 234, 47, 42, 85]), 0]) + rbytes(rng, k))
+        n += k + 2
+    tif = rng.choice(['', 't', 'tr'])
+    if tif:
+        kind, pn = rng.choice(PAD_SCHEMES_TIF); nonnull = rng.random() < 0.4
+    else:
+        kind, pn, nonnull = rng.choice(PAD_SCHEMES_PLAIN)
+    pv = (lambda: rng.choice([32, rng.randrange(1, 256)])) if nonnull else (lambda: 0)
+    pr_max = rng.choice([65535, 8192, 1024, 131, rng.randint(60, 3000)])
+    by, nprs, first_span = build_padded_lis(lrs, tif, pr_max, (kind, pn), pv, 0, (rng.random() < 0.3, rng.choice([None, 1]), rng.random() < 0.3))
+    return by, 'LIS' + tif, {'kind': 'LIS' + tif, 'sized': target, 'padded': [kind, pn], 'nonnull': nonnull, 'pr_max': pr_max,
+                              'physical_records': nprs, 'first_pr': first_span, 'size': len(by)}
+
+
 def gen_sized(rng, name, target, pools=None):
     pools = pools or {}
+    if name == 'lispad': return sized_lis_padded(rng, target)
     if name == 'dat': return sized_dat(rng, target)
     if name in ('las12', 'las20', 'las30'): return sized_las(rng, {'las12': '1.2', 'las20': '2.0', 'las30': '3.0'}[name], target)
     if name == 'rp66v1': return sized_rp66v1(rng, target)
     if name == 'lis': return sized_lis(rng, target, pools.get('lis', ()))
     if name == 'bit': return sized_bit(rng, target)
     return sized_other(rng, name, target)
+
+
+# ------------------------------------------------------------------------------------------------ padded LIS
+# LIS-79 2.3.1.1: "a Physical Record may be padded with null characters to guarantee a minimum record size"; real files
+# also pad to 2/4/8 byte boundaries, sometimes with non-null bytes.  The repository's writer never pads, so this is an
+# encoder of its own.  With TIF markers the `next` pointer skips the padding (any scheme is readable); without TIF the
+# reader can only resynchronise on padding to a multiple of 2 or 4 bytes, and with non-null bytes only modulo 2
+# (modulo-4 non-null padding ties with modulo 2 in the pad-option scan on some files: not generated as "valid").
+
+PAD_SCHEMES_TIF = [('mod', 2), ('mod', 4), ('mod', 8), ('min', 64), ('min', 80), ('min', 128)]
+PAD_SCHEMES_PLAIN = [('mod', 2, False), ('mod', 4, False), ('mod', 2, True)]      # (kind, n, non-null allowed)
+
+
+def build_padded_lis(lrs, tif, pr_max, pad, padval, attr_extra=0, trailer=(False, None, False)):
+    """Physical records (+ TIF markers when `tif` is 't' or 'tr') for the logical records `lrs`; after every physical
+    record `pad` = ('mod', n): fill to a multiple of n bytes / ('min', n): fill the record up to n bytes, with bytes
+    from `padval()`.  Returns (bytes, number of physical records, span of the first record incl. padding)."""
+    out = bytearray()
+    prev = 0
+    recno = 0
+    has_rec, file_num, has_chk = trailer
+    prt = (2 if has_rec else 0) + (2 if file_num is not None else 0) + (2 if has_chk else 0)
+    mp = pr_max - 4 - prt
+    fmt = '>3L' if tif == 'tr' else '<3L'
+    first_span = None
+
+    def marker(ty, nxt):
+        nonlocal prev
+        pos = len(out)
+        out.extend(struct.pack(fmt, ty, prev, nxt))
+        prev = pos
+
+    for lr in lrs:
+        chunks = [lr[i:i + mp] for i in range(0, len(lr), mp)]
+        for ci, c in enumerate(chunks):
+            attr = attr_extra | (0x200 if has_rec else 0) | (0x400 if file_num is not None else 0) | (0x1000 if has_chk else 0)
+            if ci < len(chunks) - 1:
+                attr |= 1
+            if ci > 0:
+                attr |= 2
+            pr = struct.pack('>HH', 4 + len(c) + prt, attr) + c
+            if has_rec:
+                pr += struct.pack('>H', recno % 65536)
+            if file_num is not None:
+                pr += struct.pack('>H', file_num)
+            if has_chk:
+                pr += b'\x00\x00'
+            recno += 1
+            kind, n = pad
+            if kind == 'mod':
+                padlen = (-(len(out) + (12 if tif else 0) + len(pr))) % n if n else 0
+            else:
+                padlen = max(n - len(pr), 0)
+            if tif:
+                marker(0, len(out) + 12 + len(pr) + padlen)
+            out += pr + bytes(padval() for _ in range(padlen))
+            if first_span is None:
+                first_span = len(pr) + padlen
+    if tif:
+        marker(1, len(out) + 12)
+        marker(1, len(out) + 12)
+    return bytes(out), recno, first_span
+
+
+def gen_lis_padded(rng, lr_pool=()):
+    """A valid LIS file (header record first) whose physical records are followed by PAD bytes."""
+    fill = rng.choice([b' ', b'\x00'])
+    lrs = [lis_reel_tape_head(rng, 132, fill), lis_reel_tape_head(rng, 130, fill), lis_file_head(rng, fill)][rng.randrange(3):]
+    body = rng.randrange(4)
+    if body == 0 and lr_pool:
+        pool = rng.choice(lr_pool)
+        k = rng.choice([len(pool), rng.randint(0, len(pool)), rng.randint(0, min(len(pool), 12))])
+        lrs += [lr for lr in pool[:k] if lr[0] not in (128, 130, 132)]
+    elif body == 1:       # many small records: more than 100 physical records
+        for _ in range(rng.choice([110, 150, 260, 400])):
+            lrs.append(bytes([rng.choice([232, 234, 47, 42]), 0]) + rbytes(rng, rng.choice([1, 2, 3, 5, 8, 13, 60, 61])))
+    else:
+        for _ in range(rng.randint(0, 6)):
+            lrs.append(bytes([rng.choice([232, 234, 224, 225, 227, 85, 86, 47, 42]), 0]) + rbytes(rng, rng.choice([1, 2, 7, 80, 81, 501, 3001])))
+    if rng.random() < 0.5:
+        lrs.append(b'\x81\x00' + lis_file_head(rng, fill)[2:])
+    tif = rng.choice(['', 't', 't', 'tr', 'tr'])
+    if tif:
+        kind, n = rng.choice(PAD_SCHEMES_TIF)
+        nonnull = rng.random() < 0.4
+    else:
+        kind, n, nn_ok = rng.choice(PAD_SCHEMES_PLAIN)
+        nonnull = nn_ok
+    pv = (lambda: rng.choice([32, 32, rng.randrange(1, 256)])) if nonnull else (lambda: 0)
+    # a small maximum PR length cuts long records into many physical records (body 1 with 67 gives several hundred)
+    pr_max = rng.choice([65535, 8192, 1024, 130, 67, rng.randint(40, 3000)])
+    # unused / reserved attribute bits may be set (LIS-79 defines no meaning for them); type bit 14 and the undefined checksum
+    # codes are not LIS-79 and are not generated as valid files
+    attr_extra = rng.choice([0, 0, 0, 0x0004, 0x0110, 0x8000, 0x0888])
+    trailer = (rng.random() < 0.3, rng.choice([None, None, 1, 255]), rng.random() < 0.3)
+    by, nprs, first_span = build_padded_lis(lrs, tif, pr_max, (kind, n), pv, attr_extra, trailer)
+    rec = {'kind': 'LIS' + tif, 'padded': [kind, n], 'nonnull': nonnull, 'pr_max': pr_max, 'attr_extra': attr_extra, 'trailer': list(trailer),
+           'records': len(lrs), 'physical_records': nprs, 'first_pr': first_span, 'size': len(by)}
+    return by, 'LIS' + tif, rec
